@@ -47,6 +47,7 @@ fn main() {
         "anz-cases" => anz::cases(rest),
         "inc-cases" => inc::cases(rest),
         "decl-cases" => decl::cases(rest),
+        "relayout-cases" => decl::relayout(rest),
         "ty-rows" => tyrows::rows(rest),
         "events-cases" => events::cases(rest),
         "evtrace-record" => events::record_traces(rest),
